@@ -368,7 +368,7 @@ pub fn apply_update(s: &mut UpdateStatement, c: &J) {
     match op {
         "table" => { s.table(table_ref(&c["t"])); }
         "from" => { s.from(table_ref(&c["t"])); }
-        "value" => { s.value(a(&st(c, "c")), expr(&c["e"])); }
+        "value" => { s.value(a(&st(c, "col")), expr(&c["e"])); }
         "and_where" => { s.and_where(expr(&c["e"])); }
         "cond_where" => { s.cond_where(cond(&c["c"])); }
         "order_by" => {
